@@ -67,12 +67,57 @@ def deSign (v : Int) : Option Sign :=
   else if v = 1 then some .plus
   else none
 
+/-- the kinds of token a serde `Deserializer` may hand to the visitor for the sign field (`other` stands for
+    every non-integer token: bool, float, char, str, bytes, unit, none, seq, map) -/
+inductive TokKind where
+  | i8 | i16 | i32 | i64 | i128 | u8 | u16 | u32 | u64 | u128 | other
+  deriving DecidableEq, Repr
+
+/-- serde's primitive visitor for `i8` (`impl_deserialize_num! { i8, … }`, serde_core 1.0.229): `visit_i8`,
+    `visit_i16/i32/i64` and `visit_u8/u16/u32/u64` convert with a range check; every other `visit_*` (also
+    `visit_i128/u128`) is the provided "invalid type" error -/
+def TokKind.accepted : TokKind → Bool
+  | .i8 | .i16 | .i32 | .i64 | .u8 | .u16 | .u32 | .u64 => true
+  | .i128 | .u128 | .other => false
+
+/-- `Deserialize for Sign` on a typed token: the value is the mathematical integer the token carries -/
+def deSignTok (k : TokKind) (v : Int) : Option Sign :=
+  if k.accepted then deSign v else none
+
 /-- `Serialize for BigInt`: the tuple `(sign, &data)` -/
 def serBigInt (x : BigInt) : Int × SeqRec := (serSign x.sign, ser x.mag)
 
 /-- `Deserialize for BigInt`: tuple, then `BigInt::from_biguint(sign, data)` -/
 def deBigInt (v : Int) (hint : Option Nat) (tokens : List Nat) : Option BigInt :=
   match deSign v with
+  | none => none
+  | some s => some (BigInt.fromBiguint s (de hint tokens))
+
+/-- one element of the digit sequence delivered as a typed token: serde's primitive visitor for `u32` accepts the
+    same integer kinds as the one for `i8`, range-checked against `u32` -/
+def deElemTok (t : TokKind × Int) : Option Nat :=
+  if t.1.accepted && decide (0 ≤ t.2) && decide (t.2 < 4294967296) then some t.2.toNat else none
+
+/-- `seq.next_element::<u32>()?` over typed tokens: the first rejected element fails the whole sequence -/
+def deElems : List (TokKind × Int) → Option (List Nat)
+  | [] => some []
+  | t :: ts =>
+    match deElemTok t with
+    | none => none
+    | some w =>
+      match deElems ts with
+      | none => none
+      | some ws => some (w :: ws)
+
+/-- `Deserialize for BigUint` on a sequence of typed tokens -/
+def deTokSeq (hint : Option Nat) (toks : List (TokKind × Int)) : Option (List Nat) :=
+  match deElems toks with
+  | none => none
+  | some ws => some (de hint ws)
+
+/-- `Deserialize for BigInt` with a typed sign token -/
+def deBigIntTok (k : TokKind) (v : Int) (hint : Option Nat) (tokens : List Nat) : Option BigInt :=
+  match deSignTok k v with
   | none => none
   | some s => some (BigInt.fromBiguint s (de hint tokens))
 
